@@ -2011,7 +2011,7 @@ def m_arc_new(ex, st, fr, path, args, m):
     return Ref(Cell(args[0]), (), None, False, False)
 
 
-@model(r"^(?:std::sync::atomic::)?Atomic(Bool|Usize|U64)::(new|load|store)$")
+@model(r"^(?:std::sync::atomic::)?Atomic(Bool|Usize|U64)::(new|load|store|fetch_add)$")
 def m_atomic(ex, st, fr, path, args, m):
     from .interp import Loc
     op = m.group(2)
@@ -2022,6 +2022,10 @@ def m_atomic(ex, st, fr, path, args, m):
         a = deref_val(a)
     if op == "load":
         return a.fields[0]
+    if op == "fetch_add":
+        old_v = a.fields[0]
+        a.fields[0] = binop("Add", old_v, args[1])      # atomics wrap
+        return old_v
     a.fields[0] = args[1]
     return UNIT
 
